@@ -125,7 +125,11 @@ def gen(seed, tier, index):
     else:
         baseline("new")
     # ---- recovery script (same for every crash state)
-    rec = [{"act": "start"}]
+    # the recovering process initialises the library with or without locking (configuration): with OS locking or application callbacks the library's own
+    # mutexes are real, and a recovery path that takes one of them twice hangs
+    rlock = ["none", "os", "callbacks"][(index // len(VICTIMS)) % 3]
+    rec = [{"act": "start", "locking": rlock}]
+    g.extra["recovery_locking"] = rlock
     n = 0
     for tt, pp in pins.items():
         n += 1; s = "R%d" % n
@@ -145,7 +149,7 @@ def gen(seed, tier, index):
         rec.append({"act": "readout", "s": s, "tmpl": [], "types": PIN_TYPES, "rtok": tt})
         # R5: the recovered token accepts a further write and a restart
         rec.append({"f": "C_CreateObject", "s": s, "rtok": tt, "r5": True, "tmpl": [A_ulong(K.CKA_CLASS, K.CKO_DATA), A_bool(K.CKA_TOKEN, True), A_bool(K.CKA_PRIVATE, False), A_bytes(K.CKA_LABEL, b"o9999"), A_bytes(K.CKA_VALUE, b"after-recovery")], "out": "O9999"})
-    rec.append({"act": "restart"})
+    rec.append({"act": "restart", "locking": rlock})
     n = 0
     for tt in pins:
         n += 1; s = "Q%d" % n
